@@ -16,7 +16,7 @@ use serde::{Deserialize, Serialize};
 use std::collections::{BTreeMap, BTreeSet, HashSet};
 use std::num::NonZeroUsize;
 use std::sync::{Arc, Mutex};
-use vh_core::{Ctx, Report, RunCfg};
+use vh_core::{pick_idx, Ctx, Report, RunCfg};
 use vh_fix as fix;
 
 #[derive(Clone, Copy, Debug, Serialize, Deserialize, PartialEq)]
@@ -83,7 +83,9 @@ fn q_strategy() -> impl Strategy<Value = Q> {
 }
 
 fn reply_strategy(allow_other_key: bool) -> impl Strategy<Value = Reply> {
-    (0u8..9, prop_oneof![5 => Just(0u8), 2 => Just(1u8), 1 => Just(2u8)], prop_oneof![12 => Just(false), 1 => Just(allow_other_key)])
+    // versions 0..2 as before; a fifth of the replies pick among eight versions, so that a query can see more
+    // distinct versions than a close group has members
+    (0u8..9, prop_oneof![5 => Just(0u8), 2 => Just(1u8), 1 => Just(2u8), 2 => 0u8..8], prop_oneof![12 => Just(false), 1 => Just(allow_other_key)])
         .prop_map(|(peer, ver, other_key)| Reply { peer, ver, other_key })
 }
 
@@ -95,9 +97,23 @@ pub fn case_strategy() -> BoxedStrategy<Case> {
                 .prop_map(|(q, target, at)| Caller { q, target, at });
             (
                 Just(class),
-                proptest::collection::vec((1u8..5, prop_oneof![3 => Just(true), 1 => Just(false)]), 3),
+                proptest::collection::vec((1u8..9, prop_oneof![3 => Just(true), 1 => Just(false)]), 8),
                 proptest::collection::vec(caller, 1..=vh_core::depth(4, 7)),
-                proptest::collection::vec(reply_strategy(class == Class::Chunk), 0..vh_core::depth(12, 32)),
+                prop_oneof![
+                    5 => proptest::collection::vec(reply_strategy(class == Class::Chunk), 0..vh_core::depth(12, 32)),
+                    // a walk over many peers that each hold another version (6..8 distinct versions from distinct
+                    // peers, in a generated order), then ordinary replies
+                    1 => (proptest::collection::vec(any::<u16>(), 8), 6usize..=8, proptest::collection::vec(reply_strategy(false), 0..8)).prop_map(|(order, n, tail)| {
+                        let mut idx: Vec<u8> = (0..8).collect();
+                        for i in 0..idx.len() {
+                            let j = i + pick_idx(order[i], idx.len() - i);
+                            idx.swap(i, j);
+                        }
+                        let mut v: Vec<Reply> = idx.into_iter().take(n).map(|i| Reply { peer: i, ver: i, other_key: false }).collect();
+                        v.extend(tail);
+                        v
+                    }),
+                ],
                 prop_oneof![Just(Term::Finished), Just(Term::NotFound), Just(Term::QuorumFailed), Just(Term::Timeout)],
                 proptest::collection::vec(reply_strategy(false), 0..3),
             )
@@ -145,7 +161,7 @@ fn versions(case: &Case) -> Versions {
     match case.class {
         Class::Chunk => {
             v.key = RecordKey::new(&fix::h32("c05-chunk-key", &[0]));
-            for i in 0..3u64 {
+            for i in 0..8u64 {
                 v.values.push(make_value(0, 20 + i as usize, 77 + i as u32));
             }
         }
@@ -157,7 +173,7 @@ fn versions(case: &Case) -> Versions {
             // the merge does with it, it must not cost a genuine transaction its place
             let mut lookalike = t(1);
             lookalike.content = fix::h32("c05-lookalike", &[1]);
-            v.txs = vec![vec![t(0)], vec![t(1)], vec![t(2), t(0), lookalike]];
+            v.txs = vec![vec![t(0)], vec![t(1)], vec![t(2), t(0), lookalike], vec![t(3)], vec![t(4)], vec![t(5)], vec![t(6), t(1)], vec![t(7), t(3)]];
             for txs in &v.txs {
                 v.values.push(fix::transactions_record(v.key.clone(), txs).value);
             }
@@ -168,11 +184,15 @@ fn versions(case: &Case) -> Versions {
                 c.borrow_mut()
                     .get_or_insert_with(|| {
                         let base = fix::register_base(2, 7, Some(vec![]));
-                        let ops = fix::register_ops(2, 7, 4, &[2]);
+                        let ops = fix::register_ops(2, 7, 7, &[2]);
                         vec![
                             fix::signed_register(&base, 2, ops[0..2].to_vec()),
                             fix::signed_register(&base, 2, ops[1..3].to_vec()),
                             fix::signed_register(&base, 2, ops[0..4].to_vec()),
+                            fix::signed_register(&base, 2, ops[4..5].to_vec()),
+                            fix::signed_register(&base, 2, ops[5..6].to_vec()),
+                            fix::signed_register(&base, 2, ops[2..3].to_vec()),
+                            fix::signed_register(&base, 2, ops[3..7].to_vec()),
                         ]
                     })
                     .clone()
@@ -432,6 +452,7 @@ fn check_with(sim: &mut DriverSim, case: &Case, ctx: &mut Ctx) {
         }
     }
     ctx.label_if(versions_seen.len() >= 2, "two_or_more_versions");
+    ctx.label_if(versions_seen.len() > 5, "more_versions_than_a_close_group_has_members");
     ctx.label_if(dup_peer, "duplicate_peer");
     ctx.label_if(term_before_quorum, "terminated_before_quorum");
     ctx.label_if(other_key_seen, "reply_under_other_key");
@@ -660,7 +681,7 @@ fn check_retry_with(sim: &mut DriverSim, case: &RetryCase, ctx: &mut Ctx) {
 
 pub fn run(cfg: RunCfg) {
     let mut rep = Report::new(cfg, "exploration");
-    rep.rule = "C05: quorum cfg x 1-4 callers (attaching at generated points) x up to 3 content versions (chunk-like, transaction sets, registers, scratchpads) x reply sequences over 8 peers + self with duplicates x terminator; replies and terminators injected as kad events into the real SwarmDriver, callers are real Network::get_record_from_network futures.".into();
+    rep.rule = "C05: quorum cfg x 1-4 callers (attaching at generated points) x up to 8 content versions (chunk-like, transaction sets, registers, scratchpads) x reply sequences over 8 peers + self with duplicates x terminator; replies and terminators injected as kad events into the real SwarmDriver, callers are real Network::get_record_from_network futures.".into();
     rep.assumptions = vec![
         "libp2p's own query engine is replaced by injected kad::Event values (the seam the driver consumes)".into(),
         "an expected target is only required of a value returned on quorum, not of a merged result (the statement is read as two cases)".into(),
